@@ -8,7 +8,7 @@ META = {
     "level": "exploration",
     "rule": ("messages generated from FIXProtocol44.repeating_groups taken as data (enumerated: every group key x {1,2 items} x "
              "{no optional member, all, each single one}; random: msg types standard+custom, plain tags 1..99999, printable-ASCII "
-             "values incl. framing look-alikes, 0-3 groups nested as deep as the table allows, 4 sequence-number modes); "
+             "values incl. framing look-alikes, 0-3 groups nested as deep as the table allows, 7 sequence-number modes (new, PossDup, SequenceReset, raw, PossDupFlag=N with and without a stale MsgSeqNum, stale MsgSeqNum)); "
              "distinct = hash of (type, body structure, mode, seq); non-trivial = has a group, a framing look-alike value or a "
              "non-default numbering mode"),
     "assumptions": ["values are single-byte printable text without SOH (the property's domain)",
@@ -17,7 +17,7 @@ META = {
 REQUIRED_ORACLES = ["roundtrip", "reference-parse", "seqnum"]
 NSHARDS = 16
 RANDOM = {"quick": 5000, "thorough": 40000}
-MODES = ["normal", "normal", "normal", "possdup", "seqreset", "raw"]
+MODES = ["normal", "normal", "normal", "possdup", "seqreset", "raw", "dupflag-n", "dupflag-n-stale34", "stale34"]
 
 
 def plan(tier, seed):
@@ -71,6 +71,12 @@ def run_case(acc, env, body, mt, mode, n0, carried, case_id, rnd_desc):
         body = [("34", str(carried)), ("36", str(carried + 3))] + [b for b in body if b[0] not in ("36",)]
     elif mode == "raw":
         body = [("34", str(carried))] + body
+    elif mode == "dupflag-n":             # PossDupFlag present but 'N': not a retransmission, a number is allocated
+        body = [("43", "N")] + body
+    elif mode == "dupflag-n-stale34":     # e.g. a decoded message relayed on another session: its old 34 must not be reused
+        body = [("43", "N"), ("34", str(carried))] + body
+    elif mode == "stale34":               # a new message that still carries a MsgSeqNum tag
+        body = [("34", str(carried))] + body
     mtv = mt.value if isinstance(mt, FMsg) else mt
     nontriv = msggen.has_group(body) or mode != "normal" or any(any(x in v for x in ("=", "FIX", "\x01")) for v in msggen.all_values(body))
     acc.case((mtv, body, mode, n0, carried), nontrivial=nontriv)
@@ -95,8 +101,9 @@ def run_case(acc, env, body, mt, mode, n0, carried, case_id, rnd_desc):
             acc.violation(key, what, witness, case_id)
     # --- sequence number
     acc.oracle("seqnum")
-    exp_seq = str(n0) if mode == "normal" else str(carried)
-    exp_counter = n0 + 1 if mode == "normal" else n0
+    allocates = mode in ("normal", "dupflag-n", "dupflag-n-stale34", "stale34")
+    exp_seq = str(n0) if allocates else str(carried)
+    exp_counter = n0 + 1 if allocates else n0
     if sess.next_num_out != exp_counter:
         viol("seq:counter", f"session counter {sess.next_num_out}, expected {exp_counter} (mode {mode})")
     # --- second witness: independent parse of the wire form
